@@ -22,6 +22,7 @@ import (
 	"hash/crc32"
 	"io"
 	"math/rand"
+	"os"
 	"runtime"
 	"sync"
 	"sync/atomic"
@@ -68,6 +69,8 @@ type c01Case struct {
 	Refs   []int   `json:"refs"`   // bam mode: reference lengths
 	Rname  int     `json:"rname"`  // bam mode: reference name length
 	Hbytes bool    `json:"hbytes"` // include full header bytes of every member
+	Tmpdir string  `json:"tmpdir"` // haseof mode: directory for the *os.File variant
+	Levels []int   `json:"levels"` // probe mode
 }
 
 // c01Payload generates the payload content; lib/wrlib.py and Model/WrRun.v
@@ -554,6 +557,10 @@ func c01(raw json.RawMessage) interface{} {
 	switch c.Mode {
 	case "laws":
 		return c01Laws(&c)
+	case "probe":
+		return c01Probe(&c)
+	case "haseof":
+		return c01HasEOF(&c)
 	case "bam":
 		return c01Bam(&c)
 	}
@@ -789,5 +796,145 @@ func c01Bam(c *c01Case) interface{} {
 	bw.Close()
 	fin := sink.bytes()
 	o["prefix_ok"] = bytes.HasPrefix(fin, snap)
+	return o
+}
+
+// c01Probe reports, for every payload of the case and every requested level,
+// the length of the DEFLATE stream compress/flate produces, so that the
+// generator can aim member lengths at the 64 KiB boundary.
+func c01Probe(c *c01Case) interface{} {
+	var out []map[string]interface{}
+	for _, op := range c.Ops {
+		p := c01Payload(op.Kind, op.Seed, op.Len)
+		a, b := c01Adler(p)
+		for _, lvl := range c.Levels {
+			var buf bytes.Buffer
+			fw, err := flate.NewWriter(&buf, lvl)
+			if err != nil {
+				return map[string]interface{}{"bad_case": err.Error()}
+			}
+			fw.Write(p)
+			fw.Close()
+			out = append(out, map[string]interface{}{"kind": op.Kind, "seed": op.Seed, "len": op.Len, "level": lvl, "clen": buf.Len(), "ada": a, "adb": b})
+		}
+	}
+	return map[string]interface{}{"probe": out}
+}
+
+// ReaderAt doubles for HasEOF, one per kind the function distinguishes.
+
+// c01LenSeeker exposes its extent only through Seek and Len (Len = unread bytes).
+type c01LenSeeker struct {
+	b   []byte
+	pos int64
+}
+
+func (r *c01LenSeeker) ReadAt(p []byte, off int64) (int, error) {
+	if off < 0 {
+		return 0, errors.New("c01LenSeeker.ReadAt: negative offset")
+	}
+	if off >= int64(len(r.b)) {
+		return 0, io.EOF
+	}
+	n := copy(p, r.b[off:])
+	if n < len(p) {
+		return n, io.EOF
+	}
+	return n, nil
+}
+
+func (r *c01LenSeeker) Seek(off int64, whence int) (int64, error) {
+	var abs int64
+	switch whence {
+	case io.SeekStart:
+		abs = off
+	case io.SeekCurrent:
+		abs = r.pos + off
+	case io.SeekEnd:
+		abs = int64(len(r.b)) + off
+	default:
+		return 0, errors.New("c01LenSeeker.Seek: invalid whence")
+	}
+	if abs < 0 {
+		return 0, errors.New("c01LenSeeker.Seek: negative position")
+	}
+	r.pos = abs
+	return abs, nil
+}
+
+func (r *c01LenSeeker) Len() int {
+	if r.pos >= int64(len(r.b)) {
+		return 0
+	}
+	return int(int64(len(r.b)) - r.pos)
+}
+
+// c01BareReaderAt has neither Size, Stat nor Seek+Len.
+type c01BareReaderAt struct{ b []byte }
+
+func (r c01BareReaderAt) ReadAt(p []byte, off int64) (int, error) {
+	return bytes.NewReader(r.b).ReadAt(p, off)
+}
+
+func c01HasEOFObs(kind string, pos int64, has bool, err error) map[string]interface{} {
+	ec := 0
+	if err != nil {
+		ec = 2
+		if errors.Is(err, bgzf.ErrNoEnd) {
+			ec = 3
+		}
+	}
+	o := map[string]interface{}{"kind": kind, "pos": pos, "has": has, "err": ec}
+	if err != nil {
+		o["msg"] = err.Error()
+	}
+	return o
+}
+
+// c01HasEOF runs the script, then asks bgzf.HasEOF about the produced bytes
+// through every kind of io.ReaderAt it distinguishes, with the cursor of the
+// Seek+Len reader at several positions.
+func c01HasEOF(c *c01Case) interface{} {
+	r, err := c01Exec(c, c.Wc, c.Delay)
+	if err != nil {
+		return map[string]interface{}{"newerr": err.Error()}
+	}
+	out := r.out
+	n := int64(len(out))
+	o := map[string]interface{}{"haseof": true, "out_len": n, "closed_ok": r.closedOK, "out": ints(out)}
+	o["own"] = len(out) >= len(c01Magic) && bytes.Equal(out[len(out)-len(c01Magic):], c01Magic)
+	var obs []map[string]interface{}
+	// Size()
+	br := bytes.NewReader(out)
+	br.Seek(n/2, io.SeekStart) // a moved cursor must not matter
+	h, e := bgzf.HasEOF(br)
+	obs = append(obs, c01HasEOFObs("sizer", n/2, h, e))
+	// Stat()
+	f, ferr := os.CreateTemp(c.Tmpdir, "c08-haseof-*")
+	if ferr != nil {
+		return map[string]interface{}{"bad_case": ferr.Error()}
+	}
+	f.Write(out)
+	f.Seek(n/3, io.SeekStart)
+	h, e = bgzf.HasEOF(f)
+	obs = append(obs, c01HasEOFObs("stater", n/3, h, e))
+	f.Close()
+	os.Remove(f.Name())
+	// Seek + Len, cursor anywhere
+	seen := map[int64]bool{}
+	for _, pos := range []int64{0, 1, n / 2, n - 29, n - 28, n - 27, n - 1, n} {
+		if pos < 0 || pos > n || seen[pos] {
+			continue
+		}
+		seen[pos] = true
+		ls := &c01LenSeeker{b: out, pos: pos}
+		h, e = bgzf.HasEOF(ls)
+		ob := c01HasEOFObs("lenseeker", pos, h, e)
+		ob["pos_after"] = ls.pos
+		obs = append(obs, ob)
+	}
+	h, e = bgzf.HasEOF(c01BareReaderAt{out})
+	obs = append(obs, c01HasEOFObs("none", 0, h, e))
+	o["obs"] = obs
 	return o
 }
